@@ -46,6 +46,7 @@ class RX(ExchMixin, FinamInterp):
         self.different = [frozenset(map(id, p)) for p in different]  # pairs of grids that compare unequal although compatible
         self.masks_ok, self.outliers, self.sub_mask, self.masked_data = masks_compatible, outliers, sub_mask, masked_data
         self.trees, self.queries, self.interps, self.evals, self.fills, self.pulls, self.mask_checks = [], [], [], [], [], [], []
+        self.grid_writes = []
 
     # ----- values
     def get_attr(self, obj, attr, node, mod):
@@ -62,7 +63,7 @@ class RX(ExchMixin, FinamInterp):
                 return NOMASK
             return super().get_attr(obj, attr, node, mod)
         if isinstance(obj, Sym) and obj.op not in ("enum",):
-            if attr in ("ravel", "query", "flatten", "reshape", "itransform"):
+            if attr in ("ravel", "query", "flatten", "reshape", "itransform", "transform"):
                 return Sym("method", obj, attr)
             if attr == "magnitude":
                 return Sym("magnitude", obj)
@@ -81,9 +82,14 @@ class RX(ExchMixin, FinamInterp):
             return None
         return super().set_attr(obj, attr, value, node)
 
+    def e_Slice(self, e, env, mod):
+        return Sym("slice", *(self.eval(x, env, mod) if x is not None else None for x in (e.lower, e.upper, e.step)))
+
     def set_item(self, c, k, v, node):
         if isinstance(c, Sym):
             self.fills.append((c, k, v))
+            if c.op in ("PTS", "AXES"):
+                self.grid_writes.append((c, k, v))  # the array IS the grid's own (np.asarray does not copy)
             return None
         return super().set_item(c, k, v, node)
 
@@ -181,6 +187,8 @@ class RX(ExchMixin, FinamInterp):
                 return Sym("query", recv, args[0])
             if meth == "itransform":
                 return Sym("crs", recv, args[0])
+            if meth == "transform":
+                return tuple(Sym("crs_coord", recv, i, *args) for i in range(len(args)))  # one transformed array per coordinate
             return Sym(meth, recv, *args, *[Sym("kw", k, v) for k, v in kw])
         if isinstance(fv, Closure):
             n = getattr(fv.func, "name", "")
@@ -305,7 +313,7 @@ def r35x(repo, sink):
                        bad=worst or "")
             # ---------------------------------------------------------------- the regular exchange, all specs from the neighbours
             for masked in (True, False):
-                for crs in ((False, True) if masked else (False,)):
+                for crs in (False, True):
                     for structured in ((False, True) if cname == "RegridLinear" and not masked else (False,)):
                         _regular(repo, sink, cname, gi, gd, key, infos, masked, crs, structured)
             # ---------------------------------------------------------------- linear with nearest filling outside the hull
@@ -369,6 +377,10 @@ def _data_path(repo, sink, cname, it, ad, gd, key, tag, src, src_mask, out, out_
     """Set-up terms recorded during get_info, then one abstract _get_data."""
     why = None
     announced = out_mask if announced is None else announced
+    if it.grid_writes:
+        c, k, v = it.grid_writes[0]
+        why = (f"the set-up writes into the coordinates of a grid ({c!r}[{k!r}] = {v!r}): the array belongs to the grid object (np.asarray does not "
+               "copy), which afterwards describes other locations - a second use of the same grid (another adapter, a second call) regrids to wrong places")
     # where the source coordinates come from
     def src_side(term):
         if own is not None and has(term, lambda v: isinstance(v, Sym) and v.op in ("PTS", "ORDER", "SHAPE", "AXES") and v.args[0] == own):
